@@ -700,7 +700,7 @@ class Interp:
 
     def e_Constant(self, node, env, func, depth):
         v = node.value
-        if isinstance(v, bool) or v is None or isinstance(v, str):
+        if isinstance(v, bool) or v is None or isinstance(v, str) or v is Ellipsis:
             return v
         if isinstance(v, int):
             return v
